@@ -134,14 +134,14 @@ def run(ctx):
             ctx.notes["search_evaluations"] = int(f[1])
         elif f[0] == "OUTCOMES":
             ctx.notes["search_outcomes"] = f[1]
-    for f in fails:
-        ctx.failing_input(f[1], f[2], f[3], f[4], extra={"replay_cmd": "build/bin/c11 one -w '<witness>' " + " ".join(_tool_args(bins))})
-    ctx.log("search: %d evaluations, %d failing inputs; outcomes %s" % (
-        ctx.notes.get("search_evaluations", 0), len(fails), ctx.notes.get("search_outcomes", "")))
+    new_fails = [f for f in fails if ctx.failing_input(
+        f[1], f[2], f[3], f[4], extra={"replay_cmd": "./check C11 --replay <this file>"})]
+    ctx.log("search: %d evaluations, %d failing inputs (%d not recorded as known); outcomes %s" % (
+        ctx.notes.get("search_evaluations", 0), len(fails), len(new_fails), ctx.notes.get("search_outcomes", "")))
     for k in common.load_known():
         if k.get("property") == "C11" and k.get("status") == "fixed":
             ctx.log("fixed: property=C11 %s %s" % (k.get("commit", ""), k.get("description", "")[:120]))
-    if mism and not fails:
+    if mism and not new_fails:
         by_id = {}
         for l in lines:
             p = l.split("\t")
